@@ -198,3 +198,87 @@ where
 
     (outoption, mreduced)
 }
+
+// ---------------------------------------------------------------------------------
+// verification hooks (cargo feature `verif-hooks`): call-through wrappers that expose
+// the crate-private presolver on plain data.  Add-only; no behaviour.
+// ---------------------------------------------------------------------------------
+#[cfg(feature = "verif-hooks")]
+pub mod verif_hooks_presolver {
+    use super::*;
+
+    /// plain-data view of a `Presolver`: (keep_logical, mfull, mreduced, infbound)
+    pub type PresolverState = (Option<Vec<bool>>, usize, usize, f64);
+
+    fn from_state<T: FloatT>(st: &PresolverState) -> Presolver<T> {
+        Presolver {
+            _init_cones: vec![],
+            reduce_map: st.0.as_ref().map(|k| PresolverRowReductionIndex {
+                keep_logical: k.clone(),
+            }),
+            mfull: st.1,
+            mreduced: st.2,
+            infbound: st.3,
+        }
+    }
+    fn to_state<T: FloatT>(p: &Presolver<T>) -> PresolverState {
+        (
+            p.reduce_map.as_ref().map(|m| m.keep_logical.clone()),
+            p.mfull,
+            p.mreduced,
+            p.infbound,
+        )
+    }
+
+    /// `make_reduction_map`
+    pub fn reduction_map<T: FloatT>(
+        cones: &[SupportedConeT<T>],
+        b: &[T],
+        infbound: T,
+    ) -> (Option<Vec<bool>>, usize) {
+        let (map, mreduced) = make_reduction_map(cones, b, infbound);
+        (map.map(|m| m.keep_logical), mreduced)
+    }
+
+    /// `Presolver::new` (reads the module-level infinity bound)
+    pub fn presolver_new<T: FloatT>(
+        A: &CscMatrix<T>,
+        b: &[T],
+        cones: &[SupportedConeT<T>],
+        settings: &DefaultSettings<T>,
+    ) -> PresolverState {
+        to_state(&Presolver::new(A, b, cones, settings))
+    }
+
+    /// `Presolver::reduce_cones`
+    pub fn reduce_cones<T: FloatT>(
+        st: &PresolverState,
+        cones: &[SupportedConeT<T>],
+    ) -> Vec<SupportedConeT<T>> {
+        from_state::<T>(st).reduce_cones(cones)
+    }
+
+    /// `Presolver::presolve`
+    pub fn presolve<T: FloatT>(
+        st: &PresolverState,
+        A: &CscMatrix<T>,
+        b: &[T],
+        cones: &[SupportedConeT<T>],
+    ) -> (CscMatrix<T>, Vec<T>, Vec<SupportedConeT<T>>) {
+        from_state::<T>(st).presolve(A, b, cones)
+    }
+
+    /// `Presolver::reverse_presolve`
+    pub fn reverse_presolve<T: FloatT>(
+        st: &PresolverState,
+        solution: &mut DefaultSolution<T>,
+        variables: &DefaultVariables<T>,
+    ) {
+        from_state::<T>(st).reverse_presolve(solution, variables)
+    }
+
+    /// the presolver held by a problem data object
+    pub fn presolver_of<T: FloatT>(data: &DefaultProblemData<T>) -> Option<PresolverState> {
+        data.presolver.as_ref().map(to_state)
+    }
+}
